@@ -24,6 +24,9 @@ META = dict(
     ),
     not_decided="equality of outcomes for two tokenisations of the same bytes (depends on C01/C16 semantics)",
 )
+META["explanation"] += (
+    " Added after the independent seeding rounds 2-3: " 'R4 slicer-shortcut soundness (shared with C01-R5 / C10-R1,R4).'
+)
 
 TOKEN_BOUNDARY = [(PS, "token_idx"), (PS, "byte_to_token_idx"), (TP, "llm_tokens"), (TP, "llm_bytes")]
 READ_EXC = {
